@@ -198,7 +198,44 @@ def jit_args(c):
   return {'runs': [fin(run()) for _ in range(c['applies'])]}
 
 
+def bridge_keys(c):
+  """an NNX module that owns its Rngs, embedded in a Linen model through nnx.bridge.ToLinen: every apply reseeds the NNX streams from the
+  Linen rngs of that call, so the keys follow the Linen seed and the call position"""
+  import flax.linen as nn
+  from flax import nnx
+  from flax.nnx import bridge
+  stream = c['stream']
+
+  class Noisy(nnx.Module):
+    def __init__(self, rngs=None):
+      self.rngs = nnx.Rngs(**{stream: c['own_seed']}) if rngs is None or c['skip_rng'] else rngs
+
+    def __call__(self):
+      return jax.random.key_data(getattr(self.rngs, stream)())
+
+  class Model(nn.Module):
+    @nn.compact
+    def __call__(self):
+      noisy = bridge.ToLinen(Noisy, skip_rng=c['skip_rng'], name='noisy')
+      return [noisy() for _ in range(c['calls'])]
+  model = Model()
+  variables = model.init({'params': jax.random.key(0), stream: jax.random.key(1)})
+
+  def run(seed):
+    return [[int(v) for v in np.asarray(k).reshape(-1)] for k in model.apply(variables, rngs={stream: jax.random.key(seed)})]
+  return {'a': run(c['seed']), 'a_again': run(c['seed']), 'b': run(c['seed'] + 1)}
+
+
 def main(payload):
+  if 'bridge_keys' in payload:
+    out = []
+    for c in payload['bridge_keys']:
+      try:
+        out.append({'ok': bridge_keys(c)})
+      except Exception as e:  # pylint: disable=broad-except
+        import traceback
+        out.append({'err': type(e).__name__, 'tb': traceback.format_exc()[-600:]})
+    return {'bridge_keys': out}
   if 'jit_args' in payload:
     out = []
     for c in payload['jit_args']:
